@@ -32,7 +32,7 @@ func init() {
 		Real:       append(append([]string{}, realAll...), "db/fs (compiled against the simulated os)", "db/postgres", "asm (assembling the examples)"),
 		Stub:       append(append([]string{}, stubAll...), "OS filesystem (simfs)", "Postgres server (pgfake)"),
 		HangIsViolation: true, // the property promises that requests are served
-		FaultKinds: []string{"restart", "ext_error", "ext_oversize", "client_garbage", "client_browse_oob", "first_func_error", "template_lookup_error"},
+		FaultKinds: []string{"restart", "ext_error", "ext_oversize", "client_garbage", "client_browse_oob", "first_func_error", "template_lookup_error", "client_write_error"},
 	})
 }
 
@@ -193,6 +193,9 @@ func runC08(c *core.Ctx) *core.Outcome {
 		}
 		if t.Chance(1, 14) {
 			s.FailTemplateThisRequest = true
+		}
+		if t.Chance(1, 20) {
+			s.FailWriteThisRequest = true
 		}
 		t.End()
 		ff := s.FirstFailed
